@@ -113,23 +113,41 @@ def mentions_call(t, bb):
 
 def ret_assigns(fn):
     """[(block, kind, term)] for each whole assignment to the return place.
-    kind: 'ok' | 'err' | 'residual' (from `?`) | 'call' (tail call) | 'other'"""
+    kind: 'ok' | 'err' | 'residual' (from `?`) | 'call' (tail call) | 'other'.
+    A plain move of a multiply-defined local into the return place (the shape left by virtual inlining of a helper:
+    `_0 = move _ret_of_helper`) is expanded into that local's own definitions, so error returns of the helper are
+    not mistaken for success exits."""
+    if hasattr(fn, '_ret_assigns'):
+        return fn._ret_assigns
     out = []
-    for d in fn.defs().get(0, []):
-        if d[-1]:
-            continue
+
+    def classify(d, l, depth):
         if d[0] == 'call':
             c = d[2]
             if c.callee.endswith('FromResidual::from_residual'):
                 out.append((d[1], 'residual', ('call', c.callee, [fn.term(a) for a in c.args], c.bb)))
             else:
                 out.append((d[1], 'call', ('call', c.callee or c.resolved, [fn.term(a) for a in c.args], c.bb)))
+            return
+        rv = d[3]
+        if rv['k'] == 'use' and rv['o'].get('k') in ('copy', 'move') and not rv['o']['place']['p'] and depth < 4:
+            src = rv['o']['place']['l']
+            ds = [x for x in fn.defs().get(src, []) if not x[-1]]
+            if len(ds) >= 2 and not (1 <= src <= fn.arg_count):
+                for x in ds:
+                    classify(x, src, depth + 1)
+                return
+        t = fn._def_term(d, 0, frozenset([l]))
+        if t[0] == 'agg' and t[1].endswith('result::Result'):
+            out.append((d[1], 'ok' if t[2] == 'Ok' else 'err', t))
         else:
-            t = fn._def_term(d, 0, frozenset([0]))
-            if t[0] == 'agg' and t[1].endswith('result::Result'):
-                out.append((d[1], 'ok' if t[2] == 'Ok' else 'err', t))
-            else:
-                out.append((d[1], 'other', t))
+            out.append((d[1], 'other', t))
+
+    for d in fn.defs().get(0, []):
+        if d[-1]:
+            continue
+        classify(d, 0, 0)
+    fn._ret_assigns = out
     return out
 
 
@@ -150,12 +168,133 @@ def agg_fields(t, adt_suffix, variant=None):
     return None
 
 
+def _path_effects(fn, b):
+    """ordered effects of block b on what a path-sensitive walk knows about locals:
+    (local, ('bool', v)) | (local, ('v', variant index)) | (local, ('int', n)) | (local, ('copy', src)) |
+    (local, ('discr', src)) | (local, ('branch', src)) | (local, None = unknown)"""
+    if not hasattr(fn, '_path_fx'):
+        fn._path_fx = {}
+    if b in fn._path_fx:
+        return fn._path_fx[b]
+    fx = []
+    blk = fn.blocks[b]
+    for st in blk['stmts']:
+        pl = st['place']
+        if pl['p']:
+            # a partial store invalidates what is known about the whole local
+            fx.append((pl['l'], None))
+            continue
+        l = pl['l']
+        rv = st['rv']
+        k = rv['k']
+        if k == 'use' and rv['o'].get('k') == 'const' and 'bits' in rv['o']['c']:
+            if fn.local_ty(l) == 'bool':
+                fx.append((l, ('bool', bool(int(rv['o']['c']['bits'])))))
+            else:
+                fx.append((l, ('int', int(rv['o']['c']['bits']))))
+        elif k == 'use' and rv['o'].get('k') in ('copy', 'move') and not rv['o']['place']['p']:
+            fx.append((l, ('copy', rv['o']['place']['l'])))
+        elif k == 'agg' and rv.get('agg') == 'adt':
+            fx.append((l, ('v', rv['vidx'])))
+        elif k == 'discr' and not rv['place']['p']:
+            fx.append((l, ('discr', rv['place']['l'])))
+        else:
+            fx.append((l, None))
+    t = blk['term']
+    if t['k'] == 'call' and not t['dest']['p']:
+        l = t['dest']['l']
+        cal = t.get('callee') or ''
+        if cal.endswith('Try::branch') and t['args'] and t['args'][0].get('k') in ('copy', 'move') and not t['args'][0]['place']['p']:
+            fx.append((l, ('branch', t['args'][0]['place']['l'])))
+        elif cal.endswith('FromResidual::from_residual'):
+            ty = fn.local_ty(l)
+            fx.append((l, ('v', 1) if ty.startswith('std::result::Result') else (('v', 0) if ty.startswith('std::option::Option') else None)))
+        else:
+            fx.append((l, None))
+    fn._path_fx[b] = fx
+    return fx
+
+
+def feasible_reach(fn, start, avoid=(), known=None, limit=40000):
+    """blocks reachable from `start` without entering `avoid`, pruning branches whose outcome is known along the path:
+    boolean locals assigned constants, and enum values whose variant was just constructed (`Ok(..)`, `Err(..)`, the
+    result of `?`'s from_residual) and is then tested through Try::branch / discriminant / switch.  This removes the
+    infeasible paths created by `let flag = a || b; if flag {..}` lowerings and by the merge of a (virtually inlined)
+    helper's Ok and Err returns in front of the caller's `?`."""
+    avoid = set(avoid)
+    seen = set()
+    out = set()
+    st = [(start, tuple(sorted((known or {}).items())))]
+    n = 0
+    while st:
+        b, kn = st.pop()
+        if b in avoid or (b, kn) in seen:
+            continue
+        n += 1
+        if n > limit:
+            return fn.reachable(start, avoid)
+        seen.add((b, kn))
+        out.add(b)
+        env = dict(kn)
+        for l, v in _path_effects(fn, b):
+            if v is None:
+                env.pop(l, None)
+            elif v[0] == 'copy':
+                if v[1] in env:
+                    env[l] = env[v[1]]
+                else:
+                    env.pop(l, None)
+            elif v[0] == 'discr':
+                src = env.get(v[1])
+                if src is not None and src[0] == 'v':
+                    env[l] = ('int', src[1])
+                else:
+                    env.pop(l, None)
+            elif v[0] == 'branch':
+                src = env.get(v[1])
+                ty = fn.local_ty(v[1])
+                if src is not None and src[0] == 'v' and ty.startswith('std::result::Result'):
+                    env[l] = ('v', 0 if src[1] == 0 else 1)
+                elif src is not None and src[0] == 'v' and ty.startswith('std::option::Option'):
+                    env[l] = ('v', 0 if src[1] == 1 else 1)
+                else:
+                    env.pop(l, None)
+            else:
+                env[l] = v
+        t = fn.blocks[b]['term']
+        succs = fn.succ(b)
+        if t['k'] == 'switch' and t['discr'].get('k') in ('copy', 'move') and not t['discr']['place']['p']:
+            l = t['discr']['place']['l']
+            tg = {int(v): x for v, x in t['targets']}
+            kv = env.get(l)
+            if fn.local_ty(l) == 'bool':
+                f_edge = tg.get(0, t['otherwise'])
+                t_edge = t['otherwise'] if 0 in tg else tg.get(1, t['otherwise'])
+                if kv is not None and kv[0] == 'bool':
+                    st.append((t_edge if kv[1] else f_edge, tuple(sorted(env.items()))))
+                    continue
+                for x in succs:
+                    e2 = dict(env)
+                    if x == t_edge and x != f_edge:
+                        e2[l] = ('bool', True)
+                    elif x == f_edge and x != t_edge:
+                        e2[l] = ('bool', False)
+                    st.append((x, tuple(sorted(e2.items()))))
+                continue
+            if kv is not None and kv[0] == 'int':
+                st.append((tg.get(kv[1], t['otherwise']), tuple(sorted(env.items()))))
+                continue
+        for x in succs:
+            st.append((x, tuple(sorted(env.items()))))
+    return out
+
+
 def must_pass(fn, start, goals, through):
-    """True when every path from block `start` to any block of `goals` enters a block of `through`"""
+    """True when every (boolean-feasible) path from block `start` to any block of `goals` enters a block of `through`"""
     through = set(through)
     if start in through:
         return True
-    r = fn.reachable(start, avoid=through)
+    r = feasible_reach(fn, start, avoid=through)
     return not any(g in r for g in goals)
 
 
